@@ -166,6 +166,11 @@ def emit_unit(u, out):
         p = one[0].group(1)
         out.write("@[gen_simp] noncomputable def %s_%s {K : Type} [Field K] %s : List K :=\n  [%s]\n" % (
             uname, p, bnd, ", ".join("%s_%s %s" % (uname, m.group(0), args) for m in one)))
+        # the same as a function of the storage index (to feed another generated definition)
+        out.write("@[gen_simp] noncomputable def %s_%sv {K : Type} [Field K] %s : Nat → K\n" % (uname, p, bnd))
+        for m in one:
+            out.write("  | %s => %s_%s %s\n" % (m.group(2), uname, m.group(0), args))
+        out.write("  | _ => 0\n")
     out.write("\n")
     return len(live)
 
